@@ -4,6 +4,8 @@
 package dmaworld
 
 import (
+	"reflect"
+	"unsafe"
 	"bytes"
 	"fmt"
 	"regexp"
@@ -64,6 +66,9 @@ type Cfg struct {
 	// QueueCtx: context of every queue (index; 0 = the first context, k > 0 =
 	// the k-th sibling made with InitWithExistingPID). nil = all in context 0.
 	QueueCtx []int `json:"queue_ctx,omitempty"`
+	// DrvPortCap > 0: the driver's GPU-facing port holds only that many outgoing messages (the shipped builder gives it
+	// 40 960 000): a command that issues several requests in one tick finds the port full and has to retry
+	DrvPortCap int `json:"driver_port_outgoing_capacity,omitempty"`
 	// D2HCycles > 0: the driver's set-up delay of device-to-host copies differs from that of host-to-device copies
 	// (Cycles), as on the shipped timing platforms (500 / 300)
 	D2HCycles int `json:"d2h_cycles,omitempty"`
@@ -148,6 +153,9 @@ func Body(c Cfg) explore.Body {
 			WithPageTable(pt).WithH2DCycles(c.Cycles).WithD2HCycles(d2hCycles).Build("Driver")
 		conn := directconnection.MakeBuilder().WithEngine(w.Engine).WithFreq(w.Freq).Build("Conn")
 		gpuPort := drv.GetPortByName("GPU")
+		if c.DrvPortCap > 0 {
+			setOutgoingCapacity(gpuPort, c.DrvPortCap)
+		}
 		conn.PlugIn(gpuPort)
 
 		// memory image: every GPU owns 8 pages, initialised with a pattern
@@ -656,6 +664,15 @@ func Body(c Cfg) explore.Body {
 	}
 }
 
+// setOutgoingCapacity narrows the outgoing buffer of an akita port (sim.defaultPort.outgoingBuf is a
+// *sim.bufferImpl with an int field "capacity"). The driver's builder does not export the size of its GPU port.
+func setOutgoingCapacity(p sim.Port, n int) {
+	buf := reflect.ValueOf(p).Elem().FieldByName("outgoingBuf")
+	impl := reflect.NewAt(buf.Type(), unsafe.Pointer(buf.UnsafeAddr())).Elem().Elem().Elem() // interface -> pointer -> struct
+	f := impl.FieldByName("capacity")
+	reflect.NewAt(f.Type(), unsafe.Pointer(f.UnsafeAddr())).Elem().SetInt(int64(n))
+}
+
 var digits = regexp.MustCompile(`[0-9]+`)
 
 // runGuarded runs the world and turns a panic of the components into a message.
@@ -779,6 +796,12 @@ func Scenarios(thorough bool) []harness.Scenario {
 		Jobs: []Job{{Queue: 0, H2D: true, Off: 0, Len: 70}, {Queue: 1, Off: 256, Len: 66}, {Queue: 0, Off: 0, Len: 70}, {Queue: 1, H2D: true, Off: 300, Len: 10}}}, bound)
 	add(Cfg{Name: "b/2gpu/two-queues/h2d-delay5-d2h-delay12/page-crossing", NGPU: 2, Pages: 2, MaxReq: 2, Cycles: 5, D2HCycles: 12,
 		Jobs: []Job{{Queue: 0, Off: BPage - 10, Len: 20}, {Queue: 1, H2D: true, Off: 100, Len: 64}, {Queue: 0, H2D: true, Off: BPage - 4, Len: 8}, {Queue: 1, Off: 90, Len: 80}}}, bound)
+	// the driver's GPU-facing port refuses a request (one-entry outgoing buffer) while a multi-page copy issues one
+	// request per page in the same tick: the refused request has to be sent later (seed C12-9)
+	add(Cfg{Name: "b/2gpu/driver-port-capacity1/4KiB-pages/four-page-copies", NGPU: 2, Pages: 5, MaxReq: 4, Log2Page: 12, DrvPortCap: 1,
+		Jobs: []Job{{Queue: 0, H2D: true, Off: 4096 - 8, Len: 3*4096 + 16}, {Queue: 0, Off: 4096 - 8, Len: 3*4096 + 16}}}, bound-2)
+	add(Cfg{Name: "b/1gpu/driver-port-capacity2/two-queues", NGPU: 1, Pages: 1, MaxReq: 4, DrvPortCap: 2,
+		Jobs: []Job{{Queue: 0, H2D: true, Off: 0, Len: 65}, {Queue: 1, H2D: true, Off: 128, Len: 70}, {Queue: 0, Off: 0, Len: 65}, {Queue: 1, Off: 130, Len: 64}}}, bound)
 	// sustained back-pressure below the DMA engine: copies of more transactions than the engine's outgoing buffer
 	// holds (64) against a memory that takes one transaction per 4 cycles; two queues keep several requests in flight
 	add(Cfg{Name: "b/1gpu/slow-memory4/8KiB-page", NGPU: 1, Pages: 1, MaxReq: 4, Log2Page: 13, SlowMem: 4,
@@ -831,6 +854,12 @@ func QueueScenarios(thorough bool) []harness.Scenario {
 		Jobs: []Job{{Queue: 0, Kernel: true, Off: 3, Len: 61}, {Queue: 1, Kernel: true, Off: 128, Len: 64}, {Queue: 0, Off: 3, Len: 61}, {Queue: 1, Off: 128, Len: 64}}}, bound)
 	add(Cfg{Name: "q/2gpu/two-queues/kernel-then-d2h/page-crossing", NGPU: 2, Pages: 2, MaxReq: 2,
 		Jobs: []Job{{Queue: 0, Kernel: true, Off: BPage - 8, Len: 16}, {Queue: 1, Kernel: true, Off: 512, Len: 8}, {Queue: 0, Off: BPage - 8, Len: 16}, {Queue: 1, Off: 512, Len: 8}}}, bound)
+	// the driver's GPU-facing port holds one outgoing message: the per-page requests of a four-page copy are refused
+	// and have to be retried; the drain must still return with every command done (seed C12-9)
+	add(Cfg{Name: "q/2gpu/driver-port-capacity1/four-page-h2d-then-d2h", NGPU: 2, Pages: 5, MaxReq: 4, Log2Page: 12, DrvPortCap: 1, NoStall: true, NoDelays: true,
+		Jobs: []Job{{Queue: 0, H2D: true, Off: 4096 - 8, Len: 3*4096 + 16}, {Queue: 0, Off: 4096 - 8, Len: 3*4096 + 16}}}, 0)
+	add(Cfg{Name: "q/1gpu/driver-port-capacity1/two-queues/kernel-then-d2h", NGPU: 1, Pages: 1, MaxReq: 4, DrvPortCap: 1,
+		Jobs: []Job{{Queue: 0, Kernel: true, Off: 0, Len: 70}, {Queue: 1, Kernel: true, Off: 256, Len: 66}, {Queue: 0, Off: 0, Len: 70}, {Queue: 1, Off: 255, Len: 68}}}, bound)
 	// a queue that has already executed some commands receives a backlog longer than any small power of two before
 	// the simulation dequeues again: every command still takes effect in submission order (each read-back returns
 	// the write just before it). Warm-up and backlog lengths sweep around 16, 32 and 64.
